@@ -406,6 +406,7 @@ class Engine:
         self.scopes = []      # trace positions of the solver scopes
         self.watchdog_s = watchdog_s
         self.nl_seen = False
+        self.seeded = False
         self._reset_path([], None)
 
     # -- per path state -----------------------------------------------------
@@ -486,6 +487,9 @@ class Engine:
                 self.flags.append('nondeterministic-replay')
                 self.dead = True
             self.trace.append(self.prefix[i])
+            if self.seeded:
+                # fresh engine started from a prefix handed over by another worker
+                self.solver.add(formula)
             return
         self.trace.append((True, 'A'))
         self.solver.add(formula)
@@ -518,7 +522,7 @@ class Engine:
                 self.flags.append('nondeterministic-replay')
                 self.dead = True
                 return False
-            if not forced and i >= self.synced:
+            if not forced and (i >= self.synced or self.seeded):
                 self.solver.push()
                 self.scopes.append(i)
                 self.solver.add(e if b else z3.Not(e))
@@ -626,7 +630,7 @@ class Engine:
             self.asserts.append((label, bool(cond), info))
 
     # -- exploration ---------------------------------------------------------------
-    def start_path(self, prefix, model):
+    def start_path(self, prefix, model, seeded=False):
         # pop solver scopes opened at or after the flip position
         k = len(prefix) - 1 if prefix else 0
         while self.scopes and self.scopes[-1] >= k:
@@ -634,6 +638,11 @@ class Engine:
             self.solver.pop()
         self._reset_path(prefix, model)
         self.synced = k
+        self.seeded = seeded
+        if seeded:
+            while self.scopes:
+                self.scopes.pop()
+                self.solver.pop()
         self.stats.paths += 1
 
     def model_value(self, x):
@@ -747,11 +756,16 @@ def _alarm(signum, frame):
 
 
 def explore(harness, cfg, max_paths=200000, max_seconds=600.0, witness_every=50,
-            witness_cap=20, logic=None, watchdog_s=20.0, profile=None):
+            witness_cap=20, logic=None, watchdog_s=20.0, profile=None, seeds=None,
+            slice_seconds=None):
     """Enumerate every feasible path of harness(cfg).  Returns a result dict."""
     eng = Engine(logic=logic, watchdog_s=watchdog_s)
     symx.set_ctx(eng)
-    eng.stack.append(([], None))
+    if seeds:
+        for pf in reversed(seeds):
+            eng.stack.append(([tuple(e) for e in pf], 'SEED'))
+    else:
+        eng.stack.append(([], None))
     t0 = time.perf_counter()
     out = {'paths': 0, 'violations': [], 'witnesses': [], 'flags': {}, 'reached': {},
            'covers': {}, 'errors': [], 'exhaustive': True, 'dead_paths': 0, 'samples': []}
@@ -761,8 +775,13 @@ def explore(harness, cfg, max_paths=200000, max_seconds=600.0, witness_every=50,
         if out['paths'] >= max_paths or time.perf_counter() - t0 > max_seconds:
             out['exhaustive'] = False
             break
+        if slice_seconds is not None and out['paths'] > 0 and time.perf_counter() - t0 > slice_seconds:
+            break
         prefix, model = eng.stack.pop()
-        eng.start_path(prefix, model)
+        if model == 'SEED':
+            eng.start_path(prefix, None, seeded=True)
+        else:
+            eng.start_path(prefix, model)
         err = None
         signal.setitimer(signal.ITIMER_REAL, watchdog_s)
         try:
@@ -809,7 +828,8 @@ def explore(harness, cfg, max_paths=200000, max_seconds=600.0, witness_every=50,
                 out['violations'].append(res['violation'])
         if res['witness'] is not None:
             out['witnesses'].append(res['witness'])
-    out['unexplored_prefixes'] = len(eng.stack)
+    out['pending'] = [[list(e) for e in pf] for pf, _ in eng.stack] if out['exhaustive'] else []
+    out['unexplored_prefixes'] = len(eng.stack) if not out['exhaustive'] else 0
     out['stats'] = eng.stats.as_dict()
     out['wall_s'] = time.perf_counter() - t0
     symx.set_ctx(None)
